@@ -22,14 +22,14 @@ UNITS = {
   'seg': dict(wrapper='w_seg.cpp', mode='seq', selftest=True, cut=['13internal_growI']),
 }
 UNITS['fault'] = dict(wrapper='w_fault.cpp', mode='seq', exceptions=True, ptratomics=True, prune=True, ptrcmp=True, ptrtag=True, cut=['14atomic_backoff5pauseEv'])
-KIND = {'gb': 0, 'pb': 1, 'gtal': 2}
+KIND = {'gb': 0, 'pb': 1, 'gtal': 2, 'gtalw': 2}
 def unit(kinds, table, K=None):
     """thread unit for a tuple of operation kinds; table=False: scenarios stay below index 8 (NT_CUT), True: real table extension"""
     name = '_'.join(kinds) + ('_lt' if table else '_nt') + ('_k%d' % K if K else '')
     if name not in UNITS:
         th = {}; sfx = 'abc'
         for i, k in enumerate(kinds): th.setdefault('vp_thr_' + k, []).append(sfx[i])
-        UNITS[name] = dict(wrapper='w_grow.cpp', mode='lcs', unroll=(K or (4 if table else 1)), force_unroll=bool(table or K), threads=th, cut=(SPIN_CUT if table else NT_CUT))
+        UNITS[name] = dict(wrapper='w_grow.cpp', mode='lcs', unroll=(K or (4 if table else 1)), force_unroll=bool(table or K), threads=th, cut=(SPIN_CUT if table else NT_CUT) + (['13internal_growIJEEE'] if 'gtalw' in kinds else []))
     return name
 def grow(name, kinds, table, rounds, scen, tiers=('quick', 'thorough'), timeout=900, K=None, **kw):
     sfx = 'abc'
@@ -37,6 +37,7 @@ def grow(name, kinds, table, rounds, scen, tiers=('quick', 'thorough'), timeout=
     for i, k in enumerate(kinds):
         d['T' + sfx[i].upper()] = 'vp_thr_%s_%s' % (k, sfx[i]); d['K' + sfx[i].upper()] = KIND[k]
     if not table: d['NOLONG'] = 1
+    if 'gtalw' in kinds: d['GTALW_CUT'] = 1
     h = dict(name=name, unit=unit(kinds, table, K), harness='h_grow.c', defines=d, scenarios=scen, tiers=list(tiers), timeout=timeout,
              cbmc=['--unwind', '66', '--object-bits', '10'], mem_gb=8, native_cflags=['-fno-sanitize=null'],
              desc='%s on one vector, %d free round-robin rounds + 2 forced rounds; %s' % (' || '.join(kinds), rounds,
@@ -64,6 +65,9 @@ HARNESSES += [
   grow('single_pb', ('pb',), True, 0, [sc2(p, m, 1, TABW=8, PROBE=0) for p, m in ((7, 0), (7, 1), (8, 0), (8, 1))], K=4),
 ] + [grow('pb2_p%d' % p, ('pb', 'pb'), False, 2, [sc2(p, 0, 2, **({'PROBE': 0} if p else {}))], scenarios_thorough=[sc2(p, 0, 2, ROUNDS=3, **({'PROBE': 0} if p else {}))], timeout=1800,
           tiers=(('quick', 'thorough') if p in (0, 2) else ('thorough',))) for p in (0, 1, 2, 3)] + [   # quick keeps the two pb2 queries that catch M1/M6 (p0) and M4/M5 (p2)
+  # first block of 2 segments being published by T0 (grow_by(3) on an empty vector) while T1's grow_to_at_least(n<=3) only waits
+  grow('fb_wait', ('gb', 'gtalw'), False, 2, [sc2(0, 0, 4, MIND=3, MAXD=3, GTALN=n, FIRSTA=1) for n in (2, 3)], native_cflags=['-fno-sanitize=null,pointer-overflow']),
+  grow('fb_extend', ('gb', 'gtal'), False, 2, [sc2(0, 0, 4, MIND=3, MAXD=3, GTALN=4)], tiers=('thorough',), timeout=3600, native_cflags=['-fno-sanitize=null,pointer-overflow']),
   grow('pb3', ('pb', 'pb', 'pb'), False, 1, [sc2(p, 0, 3, **({'PROBE': 0} if p else {})) for p in (0, 1, 2)], tiers=('thorough',), timeout=3600),
   grow('gb_gb', ('gb', 'gb'), False, 1, [sc2(p, 0, 6, **({'PROBE': 0} if p else {})) for p in (0, 2)], tiers=('thorough',), timeout=3600),
   grow('pb_gb', ('pb', 'gb'), False, 2, [sc2(p, m, 4, **({'PROBE': 0} if p else {})) for p, m in ((0, 0), (1, 0), (3, 0), (3, 1))], tiers=('thorough',), timeout=3600),
